@@ -76,36 +76,25 @@ theorem parse_total (e : BEnv) (Γ : Ctx) (cfg : ParserConfig) (c : ClassId) (t 
 
 /-! ## XML: byte level (`NodeParser.parse` around a tokenizer) -/
 
-/-- the full-strength statement at the byte level: whatever the tokenizer does with the
-bytes, only documented errors come out -/
-def NoLeakDocument : Prop :=
-  ∀ (e : BEnv), e.isNCName [] = false → ∀ (Γ : Ctx) (cfg : ParserConfig) (c : ClassId) (tok : Tok) (py : String),
-    parseDocument e Γ cfg c tok ≠ .error (.leaked py)
-
-/-- It is false of the code as it stands: `NodeParser.parse` only translates
-`SyntaxError`; what pyexpat's unknown-encoding callback raises for
-`<?xml version="1.0" encoding="UTF78"?>` (a `LookupError`) escapes as it is. -/
-theorem no_leak_document_counterexample : ¬ NoLeakDocument := by
-  intro h
-  exact h Witness.env rfl Witness.ctx {} "Root".toList (.raised "LookupError") "LookupError" rfl
-
-/-- the tokenizer outcomes outside the defect -/
-def Tok.isRaised : Tok → Bool
-  | .raised _ => true
-  | _ => false
-
-/-- **no_leak_document_partial.** As long as the tokenizer delivers events or fails with
-its `SyntaxError`, the byte-level entry point never leaks; a document that is not
-well-formed is always rejected with `ParserError`. -/
-theorem no_leak_document_partial (e : BEnv) (he : e.isNCName [] = false) (Γ : Ctx) (cfg : ParserConfig)
-    (c : ClassId) (tok : Tok) (htok : Tok.isRaised tok = false) (py : String) :
+/-- **no_leak_document.** Whatever the tokenizer does with the bytes — events, its
+`SyntaxError`, or the `LookupError`/`ValueError` of the python codecs for an encoding expat
+does not know (translated in `handlers/native.py` since the follow-up repair) — only
+documented errors come out of `XmlParser(handler=XmlEventHandler)`.  (Before the repair this
+was `no_leak_document_partial` + a counterexample for `encoding="UTF78"`.) -/
+theorem no_leak_document (e : BEnv) (he : e.isNCName [] = false) (Γ : Ctx) (cfg : ParserConfig)
+    (c : ClassId) (tok : Tok) (py : String) :
     parseDocument e Γ cfg c tok ≠ .error (.leaked py) := by
   cases tok with
   | tree t => exact no_leak_parse e he Γ cfg c t py
   | syntaxError => intro h; cases h
-  | raised s => cases htok
+  | codecError s => intro h; cases h
 
-example : Tok.isRaised (.tree Witness.docMissing) = false ∧ Tok.isRaised .syntaxError = false := ⟨rfl, rfl⟩
+/-- every tokenizer outcome is inhabited and maps where it should -/
+example :
+    parseDocument Witness.env Witness.ctx {} "Root".toList (.tree Witness.docMissing) = .error (.parser "Failed to create") ∧
+    parseDocument Witness.env Witness.ctx {} "Root".toList .syntaxError = .error (.parser "syntax error") ∧
+    parseDocument Witness.env Witness.ctx {} "Root".toList (.codecError "LookupError") = .error (.parser "codec error") :=
+  ⟨rfl, rfl, rfl⟩
 
 /-- not well-formed ⇒ rejected, with `ParserError` -/
 theorem malformed_rejected (e : BEnv) (Γ : Ctx) (cfg : ParserConfig) (c : ClassId) :
@@ -114,45 +103,66 @@ theorem malformed_rejected (e : BEnv) (Γ : Ctx) (cfg : ParserConfig) (c : Class
 
 /-! ## JSON: `JsonParser.parse` / `DictDecoder.decode`
 
-State of /repo after ca8f47f: `JsonParser.parse` turns every `ValueError` of `json.load` into
-`ParserError`, `bind_dataclass` rejects non-objects with `ParserError`. -/
+State of the library after ca8f47f and the follow-up repairs (repo-patches 01–06): every
+malformed or misfitting document ends in `ParserError` (or `ConverterError`). -/
 
-/-- the full-strength statement for the JSON side: whatever `json.load` does with the
-bytes and whatever shape the loaded value has, only documented errors come out -/
-def NoLeakJson : Prop :=
-  ∀ (e : BEnv) (Γ : Ctx) (cfg : ParserConfig) (fuel : Nat) (c : ClassId) (listOf : Bool) (l : Loaded) (py : String),
-    parseJson e Γ cfg fuel c listOf l ≠ .error (.leaked py)
+/-- **no_leak_dict.** For every universe (arbitrary metadata), configuration, target
+(`clazz` or `list[clazz]`) and EVERY loaded JSON value, `DictDecoder.decode` ends in a value
+or a documented error — at any nesting depth.  (Before the repairs: `no_leak_dict_partial`
+for flat documents on plain classes, and seven counterexamples.) -/
+theorem no_leak_dict (e : BEnv) (Γ : Ctx) (cfg : ParserConfig) (fuel : Nat) (c : ClassId) (listOf : Bool)
+    (data : J) (py : String) : decode e Γ cfg fuel c listOf data ≠ .error (.leaked py) :=
+  (decode_clean e Γ cfg fuel c listOf data).not_leaked py
 
-/-- It is still false of the code as it stands; one concrete document per remaining leaking
-site (each is replayed on the real code as a known finding):
-`{"x": {"a": 1}}` (x: Optional[int]) → AssertionError,
-`{"at": 5}` / `{"at": "s"}` (at: xs:anyAttribute) → TypeError / ValueError,
-`{"t": [null]}` (t: tokens) → TypeError, `{"b": ["a"]}` (b wrapped in "items") → TypeError,
-`{"x": {"qname": "q", "type": [1], "value": {}}}` → TypeError (unhashable),
-and nesting deeper than the interpreter's recursion limit → RecursionError from `json.load`. -/
-theorem no_leak_json_counterexamples :
+/-- the same without a target class (`decode(data)` → `detect_type`) -/
+theorem no_leak_dict_auto (e : BEnv) (Γ : Ctx) (cfg : ParserConfig) (fuel : Nat) (data : J) (py : String) :
+    decodeAuto e Γ cfg fuel data ≠ .error (.leaked py) :=
+  (decodeAuto_clean e Γ cfg fuel data).not_leaked py
+
+/-- **no_leak_json.** `JsonParser.parse`: whatever `json.load` does with the bytes
+(a value, JSONDecodeError, UnicodeDecodeError, the integer digit limit, RecursionError) and
+whatever shape the loaded value has, only documented errors come out. -/
+theorem no_leak_json (e : BEnv) (Γ : Ctx) (cfg : ParserConfig) (fuel : Nat) (c : ClassId) (listOf : Bool)
+    (l : Loaded) (py : String) : parseJson e Γ cfg fuel c listOf l ≠ .error (.leaked py) :=
+  (parseJson_clean e Γ cfg fuel c listOf l).not_leaked py
+
+theorem no_leak_json_auto (e : BEnv) (Γ : Ctx) (cfg : ParserConfig) (fuel : Nat) (l : Loaded) (py : String) :
+    parseJsonAuto e Γ cfg fuel l ≠ .error (.leaked py) :=
+  (parseJsonAuto_clean e Γ cfg fuel l).not_leaked py
+
+/-- … and never a SerializerError -/
+theorem dict_no_serializer_error (e : BEnv) (Γ : Ctx) (cfg : ParserConfig) (fuel : Nat) (c : ClassId) (listOf : Bool)
+    (data : J) (m : String) : decode e Γ cfg fuel c listOf data ≠ .error (.serializer m) :=
+  (decode_clean e Γ cfg fuel c listOf data).not_serializer m
+
+/-- the former leaking documents, one per repaired site, now end in `ParserError` (and the
+wrapped field given under its own name is accepted): the theorems above are not vacuous on them -/
+example :
     decode Witness.env Witness.jctx {} 16 Witness.Doc false (Witness.o [("x", Witness.o [("a", .int 1)])])
-      = .error (.leaked "AssertionError") ∧
-    decode Witness.env Witness.jctx {} 16 Witness.Doc false (Witness.o [("at", .int 5)]) = .error (.leaked "TypeError") ∧
-    decode Witness.env Witness.jctx {} 16 Witness.Doc false (Witness.o [("at", .str ['s'])]) = .error (.leaked "ValueError") ∧
-    decode Witness.env Witness.jctx {} 16 Witness.Doc false (Witness.o [("t", .arr [.null])]) = .error (.leaked "TypeError") ∧
-    decode Witness.env Witness.jctx {} 16 Witness.Doc false (Witness.o [("b", .arr [.str ['a']])]) = .error (.leaked "TypeError") ∧
+      = .error (.parser "Failed to bind object to a field of primitive type") ∧
+    decode Witness.env Witness.jctx {} 16 Witness.Doc false (Witness.o [("at", .int 5)])
+      = .error (.parser "Failed to bind value to the attributes field") ∧
+    decode Witness.env Witness.jctx {} 16 Witness.Doc false (Witness.o [("at", .str ['s'])])
+      = .error (.parser "Failed to bind value to the attributes field") ∧
+    decode Witness.env Witness.jctx {} 16 Witness.Doc false (Witness.o [("t", .arr [.null])])
+      = .error (.parser "Failed to bind value: null item in a list of tokens") ∧
+    (decode Witness.env Witness.jctx {} 16 Witness.Doc false (Witness.o [("b", .arr [.str ['a']])])).toBool = true ∧
+    (decode Witness.env Witness.jctx {} 16 Witness.Doc false (Witness.o [("items", Witness.o [("b", .arr [.str ['a']])])])).toBool = true ∧
     decode Witness.env Witness.jctx {} 16 Witness.Doc false
       (Witness.o [("x", Witness.o [("qname", .str ['q']), ("type", .arr [.int 1]), ("value", Witness.o [])])])
-      = .error (.leaked "TypeError") ∧
-    parseJson Witness.env Witness.jctx {} 16 Witness.Doc false .recursionError = .error (.leaked "RecursionError") :=
-  ⟨rfl, rfl, rfl, rfl, rfl, rfl, rfl⟩
+      = .error (.parser "Unable to locate xsi:type") ∧
+    parseJson Witness.env Witness.jctx {} 16 Witness.Doc false .recursionError = .error (.parser "RecursionError") :=
+  ⟨rfl, rfl, rfl, rfl, rfl, rfl, rfl, rfl⟩
 
-theorem no_leak_json_false : ¬ NoLeakJson := fun h =>
-  h Witness.env Witness.jctx {} 16 Witness.Doc false (.value (Witness.o [("at", .int 5)])) "TypeError" rfl
-
-/-- **json_malformed_rejected.** Text that is not JSON, bytes that are not UTF-8 and integer
-literals beyond the digit limit are reported as `ParserError` (repaired in ca8f47f). -/
+/-- **json_malformed_rejected.** Text that is not JSON, bytes that are not UTF-8, integer
+literals beyond the digit limit and documents nested beyond the recursion limit are reported
+as `ParserError`. -/
 theorem json_malformed_rejected (e : BEnv) (Γ : Ctx) (cfg : ParserConfig) (fuel : Nat) (c : ClassId) (listOf : Bool) :
     (∃ m, parseJson e Γ cfg fuel c listOf .decodeError = .error (.parser m)) ∧
     (∃ m, parseJson e Γ cfg fuel c listOf .unicodeError = .error (.parser m)) ∧
-    (∃ m, parseJson e Γ cfg fuel c listOf .intLimit = .error (.parser m)) :=
-  ⟨⟨_, rfl⟩, ⟨_, rfl⟩, ⟨_, rfl⟩⟩
+    (∃ m, parseJson e Γ cfg fuel c listOf .intLimit = .error (.parser m)) ∧
+    (∃ m, parseJson e Γ cfg fuel c listOf .recursionError = .error (.parser m)) :=
+  ⟨⟨_, rfl⟩, ⟨_, rfl⟩, ⟨_, rfl⟩, ⟨_, rfl⟩⟩
 
 /-- **non_object_rejected.** A document that is not a JSON object (scalar, null, array for a
 class target; object for a `list[class]` target; any non-object item of the array) is
@@ -164,38 +174,7 @@ theorem non_object_rejected (e : BEnv) (Γ : Ctx) (cfg : ParserConfig) (fuel : N
   cases data <;> simp [J.isObj] at h <;>
     exact ⟨⟨_, rfl⟩, ⟨_, rfl⟩⟩
 
-/-- **dict_leak_kinds.** The leaks of `DictDecoder.decode` form a closed list: for every
-universe, config, target and EVERY loaded JSON value the outcome is a value, ParserError,
-ConverterError, XmlContextError (or `unsupported`), or one of AssertionError, TypeError,
-ValueError, KeyError — nothing else, at any nesting depth (`bind_best_dataclass` swallows
-what its candidates raise).  AttributeError left the list with ca8f47f. -/
-theorem dict_leak_kinds (e : BEnv) (Γ : Ctx) (cfg : ParserConfig) (fuel : Nat) (c : ClassId) (listOf : Bool)
-    (data : J) (py : String) (h : decode e Γ cfg fuel c listOf data = .error (.leaked py)) :
-    py ∈ dictLeaks := by
-  have hc := decode_dclean e Γ cfg fuel c listOf data
-  rw [h] at hc
-  simpa [DClean, dcleanB, Err.dictSide] using hc
-
-/-- the same for `JsonParser.parse`: the decoder's leaks plus `RecursionError` from `json.load` -/
-theorem json_leak_kinds (e : BEnv) (Γ : Ctx) (cfg : ParserConfig) (fuel : Nat) (c : ClassId) (listOf : Bool)
-    (l : Loaded) (py : String) (h : parseJson e Γ cfg fuel c listOf l = .error (.leaked py)) :
-    py ∈ "RecursionError" :: dictLeaks := by
-  cases l with
-  | value j => exact List.mem_cons_of_mem _ (dict_leak_kinds e Γ cfg fuel c listOf j py h)
-  | recursionError => cases h; simp
-  | decodeError => cases h
-  | unicodeError => cases h
-  | intLimit => cases h
-
-/-- the same without a target class (`decode(data)` → `detect_type`): the leak list does not
-grow, and a document whose first item is not an object is a `ParserError` (ca8f47f; before:
-AttributeError on `data.keys()` / `data[0].keys()`) -/
-theorem dict_auto_leak_kinds (e : BEnv) (Γ : Ctx) (cfg : ParserConfig) (fuel : Nat) (data : J) (py : String)
-    (h : decodeAuto e Γ cfg fuel data = .error (.leaked py)) : py ∈ dictLeaks := by
-  have hc := decodeAuto_dclean e Γ cfg fuel data
-  rw [h] at hc
-  simpa [DClean, dcleanB, Err.dictSide] using hc
-
+/-- a document whose first item is not an object is a `ParserError` for `detect_type` too -/
 theorem detect_type_non_object_rejected (e : BEnv) (Γ : Ctx) (cfg : ParserConfig) (fuel : Nat) (data : J) (rest : List J)
     (h : data.isObj = false) :
     (∃ m, decodeAuto e Γ cfg fuel (.arr (data :: rest)) = .error (.parser m)) ∧
@@ -205,41 +184,5 @@ theorem detect_type_non_object_rejected (e : BEnv) (Γ : Ctx) (cfg : ParserConfi
   · intro ha
     cases data <;> simp [J.isObj] at h <;> simp [J.isArr] at ha <;>
       (unfold decodeAuto; split <;> exact ⟨_, rfl⟩)
-
-/-- … and never a SerializerError -/
-theorem dict_no_serializer_error (e : BEnv) (Γ : Ctx) (cfg : ParserConfig) (fuel : Nat) (c : ClassId) (listOf : Bool)
-    (data : J) (m : String) : decode e Γ cfg fuel c listOf data ≠ .error (.serializer m) := by
-  intro h
-  have hc := decode_dclean e Γ cfg fuel c listOf data
-  rw [h] at hc
-  cases hc
-
-/-- **no_leak_dict_partial.** A flat document — anything that is not an object, an object
-whose members are scalars, null or arrays of non-null scalars, or an array of such values —
-decoded into a class (or `list[class]`) without `xs:anyAttribute` and without wrapped list
-fields never leaks.  Compared with the statement before ca8f47f the hypotheses "the document
-is an object", "its key set is not {qname, type, value}" and "the target is not a list" are
-gone; the two that remain are needed (`no_leak_dict_partial_sharp`). -/
-theorem no_leak_dict_partial (e : BEnv) (Γ : Ctx) (cfg : ParserConfig) (fuel : Nat) (c : ClassId) (listOf : Bool)
-    (data : J) (hd : flatTop data = true) (hc : plainClass Γ c = true) (py : String) :
-    parseJson e Γ cfg fuel c listOf (.value data) ≠ .error (.leaked py) :=
-  (decode_flat_clean e Γ cfg fuel c listOf data hd hc).not_leaked py
-
-example :
-    flatTop (Witness.o [("x", .str "12x".toList), ("t", .arr [.int 1, .str ['a']]), ("zz", .null)]) = true ∧
-    flatTop (.int 5) = true ∧
-    flatTop (.arr [.null, Witness.o [("qname", .int 1), ("type", .int 2), ("value", .int 3)]]) = true ∧
-    plainClass Witness.jctx Witness.Plain = true ∧ plainClass Witness.jctx Witness.Doc = false :=
-  ⟨by decide, by decide, by decide, by decide, by decide⟩
-
-/-- both hypotheses of `no_leak_dict_partial` are needed: a flat document leaks on the
-class with the `xs:anyAttribute` field, and a non-flat one on the plain class -/
-theorem no_leak_dict_partial_sharp :
-    (flatTop (Witness.o [("at", .int 5)]) = true ∧
-      decode Witness.env Witness.jctx {} 16 Witness.Doc false (Witness.o [("at", .int 5)]) = .error (.leaked "TypeError")) ∧
-    (plainClass Witness.jctx Witness.Plain = true ∧
-      decode Witness.env Witness.jctx {} 16 Witness.Plain false (Witness.o [("x", Witness.o [])])
-        = .error (.leaked "AssertionError")) :=
-  ⟨⟨by decide, rfl⟩, ⟨by decide, rfl⟩⟩
 
 end Props.C15
